@@ -57,7 +57,7 @@ impl Ctx {
     }
 }
 
-fn tables_mut(h: &mut UH) -> (&mut [u16], &mut [u32]) {
+pub fn tables_mut(h: &mut UH) -> (&mut [u16], &mut [u32]) {
     match h {
         UnionHasher::H2(x) => (&mut [], x.buckets_.buckets_.slice_mut()),
         UnionHasher::H3(x) => (&mut [], x.buckets_.buckets_.slice_mut()),
@@ -80,7 +80,7 @@ fn set_common(h: &mut UH, lookups: usize, matches: usize, lbs: i32) {
 }
 
 /// LZ-style stream: literal runs and copies from earlier distances (so that matches exist)
-fn gen_stream(rng: &mut Rng, n: usize) -> (Vec<u8>, Vec<usize>) {
+pub fn gen_stream(rng: &mut Rng, n: usize) -> (Vec<u8>, Vec<usize>) {
     let mut v: Vec<u8> = Vec::with_capacity(n);
     let mut dists = vec![];
     let alpha = *rng.pick(&[2u64, 4, 16, 256]);
@@ -106,7 +106,7 @@ fn gen_stream(rng: &mut Rng, n: usize) -> (Vec<u8>, Vec<usize>) {
 }
 
 /// the encoder's ring buffer after `written` bytes of the stream (absolute positions `base + i`)
-fn ring_view(stream: &[u8], written: usize, lg: u32, tail: usize) -> Vec<u8> {
+pub fn ring_view(stream: &[u8], written: usize, lg: u32, tail: usize) -> Vec<u8> {
     let size = 1usize << lg;
     let mask = size - 1;
     let mut data = vec![0u8; size + tail + 7];
@@ -142,7 +142,7 @@ pub struct FlmCase {
     pub table_class: &'static str,
 }
 
-fn apply_pre(h: &mut UH, data: &[u8], mask: usize, pre: &[String]) -> bool {
+pub fn apply_pre(h: &mut UH, data: &[u8], mask: usize, pre: &[String]) -> bool {
     catch_unwind(AssertUnwindSafe(|| {
         for t in pre {
             let f: Vec<&str> = t.split(':').collect();
